@@ -7,7 +7,7 @@ LEAN_MODULE = "HexProps.C14"
 SCOPE = []
 ORACLE_RULE = "C14: see hx/oracles/framework.py (c14_case): random indicator spec (26 kinds + Amorph wrappers) x stream style x timeframe/fill x schedule on the real code"
 ASSUMPTIONS = ["TZ=UTC for this check"]
-PARTIAL = ""
+PARTIAL = 'leaf kinds, base timeframe: idempotence, recalculate, purge, calculate_index +-i, program-level convergence; purge of any tree; composites, timeframes and Hexital-level add/remove: correspondence + search'
 
 
 def oracle(ctx):
